@@ -4,6 +4,7 @@ import RSV.Model.Leopard
 import RSV.Model.Cert
 import RSV.Model.LeoCert
 import RSV.Proofs.LeoSched
+import RSV.Proofs.LeoSchedBounded
 /-! Leopard ops of the driver: the schedule model evaluated on byte shards -/
 namespace Drv
 open RSV RSV.Model
@@ -84,6 +85,7 @@ def leoGenOp (fam : String) (d p : Nat) (dump : Bool) : String :=
     let sched := (Leo.encodeSched (leoCtx fam) d p).toList
     let rows := 2 * m
     let wf := RSV.Proofs.LeoSched.allInRange rows d sched && RSV.Proofs.LeoSched.initOK rows sched &&
+      RSV.Proofs.LeoSched.allLogsBelow (leoCtx fam).P.order sched &&
       (List.range p).all fun i => (RSV.Proofs.LeoSched.definedAfter rows sched)[i]!
     s!"ok {body} | cert={cert} l0={l0} sched={if wf then 1 else 0}"
 
